@@ -531,6 +531,30 @@ class Gen:
             self.act("stabilise")
         self.count("motif_var_dropped_in_closure")
 
+    def motif_equal_deferred_write(self):
+        """a variable with a non-default cutoff is written, from inside a node function, with the value it already has:
+        the write must still reach the graph at the next stabilise (with `never` its dependants run again)"""
+        rng = self.rng
+        c = rng.randint(0, 4)
+        self.act(f"var {c}"); x = self.add_node("var", var=len(self.vars))
+        self.vars.append({"node": x, "alive": True, "pair": False})
+        vx = self.nodes[x]["var"]
+        self.mk_var(); t = len(self.nodes) - 1; vt = self.nodes[t]["var"]
+        self.act(f"cutoff n{x} {rng.choice(['never', 'never', 'always', 'eq'])}")
+        fa = self.new_fn(1, [rng.choice([f"setvar v{vx} {c}", f"replvar v{vx} {c}", f"modvar v{vx} 0"])])
+        self.act(f"map f{fa} n{t}"); a = self.add_node("map")
+        g = self.new_fn(1, m=7)
+        self.act(f"map f{g} n{x}"); r = self.add_node("map")
+        for k in (a, r):
+            self.act(f"observe n{k}")
+            self.obs.append({"node": k, "clones": 1, "dis": False})
+        self.act("stabilise")
+        self.act("stabilise")
+        self.act(f"modify v{vt} 1")
+        self.act("stabilise")
+        self.act("stabilise")
+        self.count("motif_equal_deferred_write")
+
     def motif_expert_stale(self):
         """two expert nodes sharing one driver whose own value never changes and which only calls make_stale;
         one of them is unobserved while the driver runs and observed again later"""
@@ -662,6 +686,46 @@ class Gen:
             self.act("stabilise")
         self.count("motif_two_binds")
 
+    def motif_same_rhs(self):
+        """a bind whose closure returns the SAME pre-existing node for different inputs; the input changes (the bind
+        re-runs and re-selects the node), then every observer goes away and the node's own input is written: nothing
+        may run any more"""
+        rng = self.rng
+        self.mk_var(); y = len(self.nodes) - 1
+        self.mk_var(); lhs = len(self.nodes) - 1
+        f = self.new_fn(1, m=7)
+        self.act(f"map f{f} n{y}")
+        n = self.add_node("map")
+        b = self.nbody; self.nbody += 1
+        third = rng.choice([f"ret n{n}", "lhsconst ; ret %0"])
+        self.defs.append(f"body b{b} 3 ret n{n} | ret n{n} | {third}")
+        self.bodies_info.append(b)
+        self.act(f"bind b{b} n{lhs}")
+        m = self.add_node("bind")
+        self.act(f"observe n{m}")
+        self.obs.append({"node": m, "clones": 1, "dis": False})
+        o = len(self.obs) - 1
+        self.act("stabilise")
+        vl, vy = self.nodes[lhs]["var"], self.nodes[y]["var"]
+        for _ in range(rng.randint(1, 3)):
+            self.act(f"modify v{vl} {rng.choice([1, 1, 2, 3])}")
+            if rng.random() < 0.4:
+                self.act(f"modify v{vy} 1")
+            self.act("stabilise")
+        if o >= 2 and rng.random() < 0.5:       # o0 and o1 keep one handle: closures and handlers may read them
+            self.act(f"dropobs o{o}")
+            self.obs[o]["clones"] -= 1
+        else:
+            self.act(f"disallow o{o}")
+        self.obs[o]["dis"] = True
+        if rng.random() < 0.7:
+            self.act("stabilise")
+        self.act(f"modify v{vy} 1")
+        self.act("stabilise")
+        self.act(f"modify v{vy} 2")
+        self.act("stabilise")
+        self.count("motif_same_rhs")
+
     def motif_mapref(self):
         """map_ref projections of a pair-valued var, consumers observed and unobserved while the source moves"""
         self.mk_var(pair=True); src = len(self.nodes) - 1
@@ -732,8 +796,12 @@ class Gen:
                 self.motif_scoped_var()
             elif 0.93 < r and self.profile in ("varw", "general") and not self.c01_safe:
                 self.motif_var_dropped_in_closure()
+            elif 0.80 < r <= 0.86 and self.profile == "varw":
+                self.motif_equal_deferred_write()
             elif r < 0.12 and self.profile != "static":
                 self.motif_leak()
+            elif 0.86 < r <= 0.93 and self.profile in ("bind", "general", "life"):
+                self.motif_same_rhs()
             elif r < 0.18 and self.profile != "static":
                 self.motif_two_binds()
             elif r < 0.3 and self.profile != "static":
